@@ -43,6 +43,15 @@ CLAIMED = {
  "C13": ("exploration", "runtime monitoring: metamorphic + reference oracle over observed results of re-laid-out texts, with a byte-by-byte padding sweep across buffer alignments",
          "For each base specification the real spec.Parse / ast.Parse / lexer are run on seeded re-layouts of the same token sequence and on a padding sweep (every padding amount in the thorough tier; windows below each buffer multiple plus every 8th amount in the quick tier) at three places; the canonical rendering of the result must be identical and the token positions must equal the reference scanner's on each variant.",
          "Trusted base: R1 scanner for absolute positions; canonical rendering in specobs.go/astobs.go.", "5/C13"),
+ "C14": ("exploration", "runtime monitoring: crash/hang monitor over worker processes (input written to disk before each call, recovered panics, worker death, nil-result check, per-input watchdog) and an exit-status/stack-trace monitor over real CLI processes",
+         "Hostile inputs (random bytes, every prefix of fixtures, byte/token mutations, token soup, ill-formed specifications, deep nesting, all short pattern strings, non-ASCII escapes, large repetition counts) are fed to every library entry point inside sharded worker processes, and ~65 command lines to the real binary; any panic, worker death, nil result without error, empty error, stack trace or zero exit on error is a violation.",
+         "Hang clause decided as bounded progress: 120 s per input, only inputs <= 256 bytes count. Resource-bound inputs (counts > 100) are excluded.", "5/C14"),
+ "C15": ("exploration", "runtime monitoring: repeated-execution differential monitor (K fresh processes + K in-process repetitions, byte comparison of files, diagnostics and exit status)",
+         "Each specification (fixtures, multi-state terminals, several conflicts / invalid patterns / defects at once, LALR conflicts) is run K times in fresh processes of the real CLI and K times in-process; every observation must be byte-identical after stripping ANSI sequences and non-ASCII decoration.",
+         "Each process has its own hash/map seeds; K=6 (quick, 2 for specifications that take seconds) / 20 (thorough) repetitions sample them; an order that differs with lower probability than that can be missed.", "5/C15"),
+ "C16": ("fault_enumeration", "runtime monitoring with fault injection: strace -f as syscall monitor and as injector (every k-th write / openat / mkdirat fails with ENOSPC, EIO, EACCES), before/after filesystem snapshots, comparison with a fault-free in-process generation",
+         "The real binary runs in private sandboxes over the flag x input-class x pre-state x name matrix and under every single-fault point of a fault-free run; exit status, announcement, the six files (byte-identical to a reference generation), the syscall policy (O_CREAT|O_EXCL only below <out>/<name>, one mkdir, never unlink/rename/truncate/chmod) and the untouched pre-existing tree are checked per run.",
+         "Single faults only (one failing call per run). Faults that hit a console write make the announcement unobservable and are not judged for that clause.", "5/C16"),
 }
 
 PENDING_REASON = "check not built yet in this round (planned, see DESIGN.md section 5)"
